@@ -234,6 +234,67 @@ fn storage_open<D: StorageData>(path: &str) -> String {
 #[cfg(not(agdb_verif))]
 fn storage_open<D: StorageData>(_path: &str) -> String { "ERROR built without the verification hooks".to_string() }
 
+/// C07 above the storage layer: the record store of the damaged file (read through the storage layer alone, on a copy,
+/// allocation tracker off) is printed as `RECS (<index> x<bytes>) ...`, then the file is opened as a database (DbFile)
+/// under the allocation limit; `OPENED` is printed when DbImpl::new returned Ok, then the ordered dump is taken.
+/// `SKIP <why>`: the storage layer does not open the file, or a live record cannot be read completely (its size passes
+/// the lenient check of read_records but reaches beyond the end of the file): no record MAP describes such a storage.
+#[cfg(agdb_verif)]
+fn db_load(path: &str, limit: usize) -> String {
+    use agdb::verif::VStorage;
+    let copy = format!("{}.s", path);
+    rm(&copy);
+    if std::fs::copy(path, &copy).is_err() { return "SKIP copy-failed".to_string(); }
+    if std::path::Path::new(&wal_name(path)).exists() { let _ = std::fs::copy(wal_name(path), wal_name(&copy)); }
+    let recs = (|| -> Result<String, String> {
+        let st = VStorage::<FileStorage>::new(&copy).map_err(|_| "storage-error".to_string())?;
+        let bound = st.len() / 16 + 16;
+        let mut seen: BTreeSet<u64> = BTreeSet::new();
+        let mut work: Vec<u64> = (1..=bound).rev().collect();
+        let mut out: BTreeMap<u64, Vec<u8>> = BTreeMap::new();
+        // every index below the bound, and every index that occurs as an aligned word of a live record
+        while let Some(i) = work.pop() {
+            if !seen.insert(i) { continue; }
+            if st.value_size(i).is_ok() {
+                match st.value_as_bytes(i) {
+                    Ok(b) => {
+                        for w in b.chunks_exact(8) {
+                            let mut x = [0u8; 8]; x.copy_from_slice(w);
+                            let v = u64::from_le_bytes(x);
+                            if v != 0 && !seen.contains(&v) { work.push(v); }
+                        }
+                        out.insert(i, b);
+                    }
+                    Err(_) => return Err("unreadable-record".to_string()),
+                }
+            }
+        }
+        let mut s = String::new();
+        for (i, b) in &out { s.push_str(&format!(" ({:x} {})", i, hex(b))); }
+        std::mem::forget(st);      // no optimize / truncate on drop: the copy is removed
+        Ok(s)
+    })();
+    rm(&copy);
+    match recs {
+        Err(e) => return format!("SKIP {}", e),
+        Ok(line) => { println!("RECS{}", line); let _ = std::io::stdout().flush(); }
+    }
+    ALLOC_LIMIT.store(limit, Ordering::SeqCst);
+    match DbFile::new(path) {
+        Err(e) => format!("ERROR {}", e.description.replace('\n', " ")),
+        Ok(db) => {
+            println!("OPENED"); let _ = std::io::stdout().flush();
+            let obs = dbdump::observe(&db);
+            let dump = dbdump::show_obs(&obs, false);
+            let line = format!("OPENS read_errors={} dump={}", obs.errors.len(), dump);
+            drop(db);
+            line
+        }
+    }
+}
+#[cfg(not(agdb_verif))]
+fn db_load(_path: &str, _limit: usize) -> String { "SKIP built without the verification hooks".to_string() }
+
 fn fnv_bytes(bs: &[u8]) -> u64 {
     let mut h = 0xcbf29ce484222325u64;
     for b in bs { h ^= *b as u64; h = h.wrapping_mul(0x100000001b3); }
@@ -242,7 +303,7 @@ fn fnv_bytes(bs: &[u8]) -> u64 {
 
 fn one(path: &str, variant: &str, limit: usize) -> String {
     REPORTED.store(false, Ordering::SeqCst);
-    ALLOC_LIMIT.store(limit, Ordering::SeqCst);
+    ALLOC_LIMIT.store(if variant == "dbload" { usize::MAX } else { limit }, Ordering::SeqCst);
     unsafe { alarm(HANG_SECS); }
     let p = path.to_string();
     let r = catch_unwind(AssertUnwindSafe(|| match variant {
@@ -252,6 +313,7 @@ fn one(path: &str, variant: &str, limit: usize) -> String {
         "any_file" => open_and_read(|| DbAny::new_file(&p)),
         "any_mapped" => open_and_read(|| DbAny::new_mapped(&p)),
         "any_memory" => open_and_read(|| DbAny::new_memory(&p)),
+        "dbload" => db_load(&p, limit),
         "storage_file" => storage_open::<FileStorage>(&p),
         "storage_mapped" => storage_open::<FileStorageMemoryMapped>(&p),
         "storage_memory" => storage_open::<MemoryStorage>(&p),
@@ -604,6 +666,18 @@ pub fn random_files(n: usize, r: &mut Rng) -> Vec<Mutation> {
 
 #[derive(Clone, Debug)]
 pub struct Outcome { pub class: String, pub detail: String, pub ips: Vec<u64> }
+/// what a `dbload` job printed on the way: the record store, whether DbImpl::new returned Ok
+#[derive(Clone, Debug, Default)]
+pub struct Extra { pub recs: Option<String>, pub opened: bool, pub skip: Option<String> }
+pub fn extras(stdout: &str) -> Extra {
+    let mut e = Extra::default();
+    for l in stdout.lines() {
+        if let Some(r) = l.strip_prefix("RECS") { e.recs = Some(r.to_string()); }
+        else if l == "OPENED" { e.opened = true; }
+        else if let Some(r) = l.strip_prefix("SKIP ") { e.skip = Some(r.to_string()); }
+    }
+    e
+}
 
 fn slug(s: &str) -> String {
     s.chars().map(|c| if c.is_ascii_alphanumeric() || c == '.' || c == '/' || c == '_' { c } else { '-' }).collect()
@@ -646,6 +720,7 @@ pub fn classify(stdout: &str, stderr: &str, status: Option<std::process::ExitSta
     }
     if let Some(l) = first("OPENS") { return Outcome { class: "opens".into(), detail: l, ips: vec![] }; }
     if let Some(l) = first("ERROR") { return Outcome { class: "error".into(), detail: l, ips: vec![] }; }
+    if let Some(l) = first("SKIP") { return Outcome { class: "skip".into(), detail: l, ips: vec![] }; }
     Outcome { class: "abort-no-output".into(), detail: stdout.lines().last().unwrap_or("").to_string(), ips: vec![] }
 }
 
@@ -737,7 +812,7 @@ pub fn run_child(exe: &str, path: &str, variant: &str, limit: usize, timeout: Du
 }
 
 pub struct Job { pub seed: String, pub m: Arc<Mutation>, pub variant: String }
-pub struct Done { pub seed: String, pub desc: String, pub variant: String, pub data_len: usize, pub wal_len: Option<usize>, pub out: Outcome, pub m: Option<Arc<Mutation>> }
+pub struct Done { pub extra: Extra, pub seed: String, pub desc: String, pub variant: String, pub data_len: usize, pub wal_len: Option<usize>, pub out: Outcome, pub m: Option<Arc<Mutation>> }
 
 pub fn alloc_limit(data_len: usize, wal_len: usize) -> usize { (1 << 16) + 1024 * (data_len + wal_len) }
 
@@ -756,10 +831,10 @@ fn spawn_worker(exe: &str) -> Worker {
 }
 
 /// runs one job on the worker; returns the outcome and whether the worker is still usable
-fn run_on_worker(w: &mut Worker, path: &str, variant: &str, limit: usize, timeout: Duration) -> (Outcome, bool) {
+fn run_on_worker(w: &mut Worker, path: &str, variant: &str, limit: usize, timeout: Duration) -> (Outcome, bool, Extra) {
     use std::io::Read;
     if w.stdin.write_all(format!("{} {} {}\n", path, variant, limit).as_bytes()).is_err() || w.stdin.flush().is_err() {
-        return (Outcome { class: "spawn-failed".into(), detail: "worker not accepting input".into(), ips: vec![] }, false);
+        return (Outcome { class: "spawn-failed".into(), detail: "worker not accepting input".into(), ips: vec![] }, false, Extra::default());
     }
     let t0 = Instant::now();
     let mut lines = String::new();
@@ -767,18 +842,20 @@ fn run_on_worker(w: &mut Worker, path: &str, variant: &str, limit: usize, timeou
         let left = timeout.checked_sub(t0.elapsed()).unwrap_or(Duration::from_millis(0));
         match w.rx.recv_timeout(left) {
             Ok(l) => {
-                if let Some(rest) = l.strip_prefix("DONE ") { lines.push_str(rest); lines.push('\n'); return (classify(&lines, "", None, false), true); }
+                if let Some(rest) = l.strip_prefix("DONE ") { lines.push_str(rest); lines.push('\n'); let ex = if variant == "dbload" { extras(&lines) } else { Extra::default() }; return (classify(&lines, "", None, false), true, ex); }
                 lines.push_str(&l); lines.push('\n');
             }
             Err(std::sync::mpsc::RecvTimeoutError::Timeout) => {
                 let _ = w.child.kill(); let _ = w.child.wait();
-                return (classify(&lines, "", None, true), false);
+                let ex = if variant == "dbload" { extras(&lines) } else { Extra::default() };
+                return (classify(&lines, "", None, true), false, ex);
             }
             Err(std::sync::mpsc::RecvTimeoutError::Disconnected) => {
                 let status = w.child.wait().ok();
                 let mut se = String::new();
                 if let Some(mut e) = w.child.stderr.take() { let mut b = vec![]; let _ = e.read_to_end(&mut b); se = String::from_utf8_lossy(&b).to_string(); }
-                return (classify(&lines, &se, status, false), false);
+                let ex = if variant == "dbload" { extras(&lines) } else { Extra::default() };
+                return (classify(&lines, &se, status, false), false, ex);
             }
         }
     }
@@ -804,13 +881,14 @@ pub fn run_jobs(jobs: Vec<Job>, work: &str, threads: usize, timeout: Duration) -
                 std::fs::write(&path, &job.m.data).unwrap();
                 if let Some(wl) = &job.m.wal { std::fs::write(wal_name(&path), wl).unwrap(); }
                 let lim = alloc_limit(job.m.data.len(), job.m.wal.as_ref().map(|w| w.len()).unwrap_or(0));
-                let (out, alive) = run_on_worker(&mut w, &path, &job.variant, lim, timeout);
+                let (out, alive, extra) = run_on_worker(&mut w, &path, &job.variant, lim, timeout);
                 if !alive { let _ = w.child.kill(); let _ = w.child.wait(); w = spawn_worker(&exe); }
                 rm(&path);
-                done.lock().unwrap().push((k, Done { seed: job.seed, desc: job.m.desc.clone(), variant: job.variant, data_len: job.m.data.len(),
+                rm(&format!("{}.s", path));
+                done.lock().unwrap().push((k, Done { extra, seed: job.seed, desc: job.m.desc.clone(), variant: job.variant.clone(), data_len: job.m.data.len(),
                                                      wal_len: job.m.wal.as_ref().map(|w| w.len()),
                                                      // the bytes are kept only where the report needs them: small inputs (model correspondence) and failures (witness files)
-                                                     m: if (job.m.data.len() <= MODEL_MAX_LEN && job.m.wal.as_ref().map(|w| w.len()).unwrap_or(0) <= MODEL_MAX_LEN) || (out.class != "opens" && out.class != "error") { Some(job.m.clone()) } else { None },
+                                                     m: if (job.variant == "dbload" && job.m.data.len() <= 4096) || (job.m.data.len() <= MODEL_MAX_LEN && job.m.wal.as_ref().map(|w| w.len()).unwrap_or(0) <= MODEL_MAX_LEN) || (out.class != "opens" && out.class != "error") { Some(job.m.clone()) } else { None },
                                                      out }));
             }
             let _ = w.child.kill(); let _ = w.child.wait();
@@ -830,6 +908,10 @@ pub struct Report {
     pub nontrivial: u64,
     pub cases: Vec<String>,
     pub imp: Vec<String>,
+    // C07 above the storage layer: record store -> load_outcome vs DbFile::new + dump
+    pub cases_db: Vec<String>,
+    pub imp_db: Vec<String>,
+    pub desc_db: Vec<String>,
 }
 
 /// a storage (not a database) with a few records, a free region and a free index: built through the hook wrapper
@@ -855,8 +937,10 @@ fn tiny_storage(_dir: &str) -> Vec<u8> { vec![] }
 
 const STORAGE_VARIANTS: [&str; 3] = ["storage_file", "storage_mapped", "storage_memory"];
 const MODEL_MAX_LEN: usize = 1200;
+/// inputs up to this length are also run as `dbload` jobs (the record store travels as text)
+pub const DB_MODEL_MAX_LEN: usize = 65536;
 
-pub fn run(seed: u64, out: &str, thorough: bool, threads: usize, variants: &[String], corpus: &str, guided_per_seed: usize, guards: &str) -> Report {
+pub fn run(seed: u64, out: &str, thorough: bool, threads: usize, variants: &[String], corpus: &str, guided_per_seed: usize, guards: &str, dbload: bool) -> Report {
     let mut r = Rng::new(seed);
     let seeds = build_seeds(&format!("{}/seeds", out), &mut r, thorough);
     let mut jobs: Vec<Job> = vec![];
@@ -890,6 +974,9 @@ pub fn run(seed: u64, out: &str, thorough: bool, threads: usize, variants: &[Str
         for m in ms {
             let m = Arc::new(m);
             for v in variants { jobs.push(Job { seed: name.clone(), m: m.clone(), variant: v.clone() }); }
+            if dbload && m.data.len() <= DB_MODEL_MAX_LEN && m.wal.as_ref().map(|w| w.len()).unwrap_or(0) <= DB_MODEL_MAX_LEN {
+                jobs.push(Job { seed: name.clone(), m: m.clone(), variant: "dbload".to_string() });
+            }
             // the storage layer alone, for the model correspondence (small inputs: they travel as text)
             if m.data.len() <= MODEL_MAX_LEN && m.wal.as_ref().map(|w| w.len()).unwrap_or(0) <= MODEL_MAX_LEN {
                 for v in STORAGE_VARIANTS { jobs.push(Job { seed: name.clone(), m: m.clone(), variant: v.to_string() }); }
@@ -912,6 +999,7 @@ pub fn run(seed: u64, out: &str, thorough: bool, threads: usize, variants: &[Str
         let m = Arc::new(m);
         for v in variants { jobs.push(Job { seed: "random".into(), m: m.clone(), variant: v.clone() }); }
         for v in STORAGE_VARIANTS { jobs.push(Job { seed: "random".into(), m: m.clone(), variant: v.to_string() }); }
+        if dbload { jobs.push(Job { seed: "random".into(), m: m.clone(), variant: "dbload".to_string() }); }
     }
     // regression corpus: every stored witness through every variant
     if let Ok(rd) = std::fs::read_dir(corpus) {
@@ -922,13 +1010,14 @@ pub fn run(seed: u64, out: &str, thorough: bool, threads: usize, variants: &[Str
             let wal = std::fs::read(format!("{}/{}", corpus, n.replace(".bin", ".wal"))).ok();
             let m = Arc::new(Mutation { desc: n.clone(), data: data.clone(), wal: wal.clone() });
             for v in variants { jobs.push(Job { seed: "corpus".into(), m: m.clone(), variant: v.clone() }); }
+            if dbload && data.len() <= DB_MODEL_MAX_LEN { jobs.push(Job { seed: "corpus".into(), m: m.clone(), variant: "dbload".to_string() }); }
         }
     }
     total += jobs.len();
     done.extend(run_jobs(jobs, &work, threads, Duration::from_secs(8)));
     let _ = std::fs::remove_dir_all(&work);
     resolve_sites(&mut done);
-    let mut rep = Report { oracle: vec![], stats, samples: vec![], evaluations: total as u64, nontrivial: 0, cases: vec![], imp: vec![] };
+    let mut rep = Report { oracle: vec![], stats, samples: vec![], evaluations: total as u64, nontrivial: 0, cases: vec![], imp: vec![], cases_db: vec![], imp_db: vec![], desc_db: vec![] };
     let mut witness: BTreeMap<String, (usize, String)> = BTreeMap::new();
     let wdir = format!("{}/witness", out);
     let _ = std::fs::remove_dir_all(&wdir);
@@ -941,6 +1030,31 @@ pub fn run(seed: u64, out: &str, thorough: bool, threads: usize, variants: &[Str
         *rep.stats.entry(format!("mutation:{}", if d.desc.starts_with("rec") { d.desc.split('.').nth(1).unwrap_or("").split(|c: char| c == '=' || c == '@' || c.is_ascii_digit()).next().unwrap_or("").to_string() } else { kind })).or_insert(0) += 1;
         // non-trivial: the damaged file still got past the storage layer in some variant (opened) or failed beyond the header
         if d.out.class == "opens" && d.seed != "random" && distinct.insert((d.seed.clone(), d.desc.clone())) { rep.nontrivial += 1; }
+        if d.variant == "dbload" {
+            // the database level: record store -> extracted load_outcome, against DbFile::new (+ ordered dump)
+            if d.out.class == "skip" || d.extra.recs.is_none() {
+                let why = d.extra.skip.clone().unwrap_or_else(|| d.out.class.split('-').next().unwrap_or("").to_string());
+                *rep.stats.entry(format!("dbload-skip:{}", why)).or_insert(0) += 1;
+                continue;
+            }
+            // the record table's own allocation class belongs to the storage layer (known class): not a load outcome
+            if d.out.class.starts_with("alloc-StorageRecords") { *rep.stats.entry("dbload-skip:storage-table-alloc".to_string()).or_insert(0) += 1; continue; }
+            let read = |d: &Done| -> String {
+                if d.out.class == "opens" {
+                    let det = &d.out.detail;
+                    let n = det.split("read_errors=").nth(1).and_then(|x| x.split(' ').next()).unwrap_or("?").to_string();
+                    let dump = det.split(" dump=").nth(1).unwrap_or("").split(" | chain=").next().unwrap_or("").to_string();
+                    if n == "0" { format!("db {}", dump) } else { format!("errors:{} db {}", n, dump) }
+                } else { d.out.class.clone() }
+            };
+            let line = if d.extra.opened { format!("open=opens read={}", read(d)) } else { format!("open={} read=-", d.out.class) };
+            rep.cases_db.push(format!("lo load 1{}", d.extra.recs.as_ref().unwrap()));
+            rep.imp_db.push(line);
+            let file_hex = match &d.m { Some(m) if m.data.len() <= 4096 => format!("{} log={}", hex(&m.data), m.wal.as_ref().map(|w| hex(w)).unwrap_or("-".into())), _ => format!("({} bytes)", d.data_len) };
+            rep.desc_db.push(format!("seed={} mutation={} data_len={} detail={} file={}", d.seed, d.desc, d.data_len, d.out.detail.chars().take(300).collect::<String>(), file_hex));
+            *rep.stats.entry("dbload-cases".to_string()).or_insert(0) += 1;
+            continue;
+        }
         // model correspondence input: storage layer outcome for data + log (hex), per variant kind
         if let Some(be) = d.variant.strip_prefix("storage_") {
             rep.cases.push(format!("open o {} {} {} {}", guards, be, hex(&d.m.as_ref().unwrap().data), d.m.as_ref().unwrap().wal.as_ref().map(|w| hex(w)).unwrap_or("-".into())));
